@@ -29,7 +29,19 @@ fn chunks() -> impl Strategy<Value = Vec<Hex>> {
         6 => proptest::collection::vec(chunk.clone(), 1..=4),
         2 => proptest::collection::vec(chunk, 5..=16),
     ]
-    .prop_map(|mut v: Vec<Hex>| {
+    .prop_flat_map(|v: Vec<Hex>| (Just(v), prop_oneof![6 => Just(0usize), 1 => Just(4096usize), 1 => Just(4095usize), 1 => Just(1024usize), 1 => Just(1025usize)]))
+    .prop_map(|(mut v, exact): (Vec<Hex>, usize)| {
+        // boundary totals: pad the last chunk so that the message is exactly `exact` bytes long
+        if exact > 0 {
+            let cur: usize = v.iter().map(|c| c.0.len()).sum();
+            if cur < exact {
+                let fill: Vec<u8> = (0..exact - cur).map(|i| (i * 31 + 7) as u8).collect();
+                match v.last_mut() {
+                    Some(l) => l.0.extend(fill),
+                    None => v.push(Hex(fill)),
+                }
+            }
+        }
         // total length <= 4096
         let mut total = 0usize;
         for c in v.iter_mut() {
